@@ -256,12 +256,15 @@ def content_by_volume(t4):
             if b is None:
                 cont.append(('undefined', nm))
                 continue
+            def real(text):
+                try:
+                    return semcheck.parse_real(text)
+                except ValueError:
+                    return ('not-a-number', text)   # compared, never equal
             cont.append((b.kind,
-                         None if b.density is None
-                         else semcheck.parse_real(b.density),
+                         None if b.density is None else real(b.density),
                          b.nb_atom,
-                         tuple((n, semcheck.parse_real(a))
-                               for n, a in b.nuclides)))
+                         tuple((n, real(a)) for n, a in b.nuclides)))
         out[vid] = tuple(cont)
     return out
 
